@@ -424,8 +424,84 @@ fn hex(b: &[u8]) -> String {
     b.iter().map(|x| format!("{x:02x}")).collect()
 }
 
+/// Miri pass: hostile SYN datagrams only (no delta => the decoder and the reply never reach zstd),
+/// delivered to a node without key-values.
+pub fn miri_syn_only(seed: u64, n: usize) -> CaseOut {
+    let rt = paused_rt();
+    let _g = rt.enter();
+    let mut out = CaseOut { findings: vec![], c: Counters::default(), sample: json!(null), hashes: vec![], replay: json!({"engine": "E5-miri-syn-only", "seed": seed}) };
+    let mut node = crate::craft::mk_node(crate::craft::simple_id("victim", 9900), &crate::craft::NodeOpts::default());
+    let me = node.id.clone();
+    let mew = wid(&me);
+    let mut rng = rng_from(mix(seed, 0x3141));
+    let mut ids: Vec<WId> = vec![];
+    for j in 0..n {
+        let before = snap(&node.cc);
+        let nd = rng.random_range(0..5);
+        let mut digest = vec![];
+        for _ in 0..nd {
+            let id = if !ids.is_empty() && rng.random_bool(0.6) { ids[rng.random_range(0..ids.len())].clone() } else if rng.random_bool(0.2) { mew.clone() } else {
+                let id = WId { node_id: format!("m{}", rng.random_range(0..12)), generation: pick_u64(&mut rng, 0), addr: addr(rng.random_range(1..50)) };
+                if ids.len() < 20 {
+                    ids.push(id.clone());
+                }
+                id
+            };
+            digest.push(WDigestEntry { id, heartbeat: pick_u64(&mut rng, 5), last_gc: pick_u64(&mut rng, 0), max_version: pick_u64(&mut rng, 0) });
+        }
+        let msg = WMsg::Syn { cluster_id: if rng.random_bool(0.8) { "c".into() } else { "é".into() }, digest };
+        let mut bytes = codec::encode_msg(&msg, &BlockPlan::Raw(1000));
+        if rng.random_bool(0.4) {
+            bytes = mutate(&mut rng, &bytes);
+            // keep it a SYN (or a BadCluster): a mutated tag could turn it into a message with a delta
+            if bytes.len() >= 4 && (bytes[3] == 1 || bytes[3] == 2) {
+                bytes[3] = 0;
+            }
+        }
+        out.c.inc("datagrams_structured");
+        out.hashes.push(mix(hash_of(&bytes[..]), j as u64));
+        let mut cur = &bytes[..];
+        let decoded = match catch(|| ChitchatMessage::deserialize(&mut cur)) {
+            Ok(r) => r,
+            Err(p) => {
+                out.findings.push(Finding::new(&["C09"], "hostile.decode_panic", format!("miri pass datagram {j}: {p}")));
+                break;
+            }
+        };
+        let Ok(m) = decoded else {
+            out.c.inc("rejected_by_decoder");
+            continue;
+        };
+        out.c.inc("decoded");
+        match catch(|| node.cc.verif_process_message(m).map(|r| r.serialize_to_vec())) {
+            Ok(_) => {}
+            Err(p) => {
+                out.findings.push(Finding::new(&["C09"], "hostile.process_panic", format!("miri pass datagram {j}: {p}")));
+                break;
+            }
+        }
+        if j % 10 == 9 {
+            node.cc.verif_update_nodes_liveness();
+        }
+        let after = snap(&node.cc);
+        check_invariants(&node.cc, &me, &before, &after, &format!("miri pass datagram {j}"), false, true, &mut out.findings);
+    }
+    out
+}
+
 pub fn check(args: &Args) -> Outcome {
     let mut ev = Evidence::new(args, "exploration");
+    if args.has("--miri") {
+        let out = miri_syn_only(args.seed, 150);
+        ev.counters.merge(&out.c);
+        ev.evaluations = out.c.get("datagrams_structured");
+        for h in out.hashes {
+            ev.distinct.insert(h);
+        }
+        let v = out.findings.into_iter().map(|f| (f, out.replay.clone())).collect();
+        let nothing = ev.counters.get("decoded") == 0;
+        return Outcome { evidence: ev, violations: v, nothing_observed: nothing };
+    }
     let deadline = Deadline::new(args.tier.pick(200, 3000));
     let n = args.n(20_000, 2_000_000);
     let seed = args.seed;
